@@ -96,6 +96,7 @@ def run(ctx):
         broken.append("harness build failed: " + getattr(ctx, "build_error", "")[-400:])
 
     canary_lines = []
+    asan_extra = []          # admissible kernel-footprint calls, re-run under ASan in the thorough tier (reads)
     if drv is not None and binp is not None:
         # ---- histories
         nh = 1500 if quick else 40000
@@ -254,6 +255,7 @@ def run(ctx):
                     cnv_col = cnv_col or {"case": l, "impl": a, "model": b,
                                           "meaning": "canaries=broken:K = first byte modified K bytes after the start of the result buffer (outside it); ok with an out-of-range a_col/b_col = silent out-of-bounds read"}
         ctx.cov["kernel_footprint_cases"] = len(kl)
+        asan_extra = [l for (be, op, pp, adm), l in zip(kl, klines) if adm]
         if cnv_col:
             ctx.violation("FFT64 convolution entry points do not check the column indices: out-of-bounds write (cnv_by_const_apply, AVX) / read (cnv_apply_dft)",
                           {"key": KEY_CNV_COL, "witness": cnv_col}, True, key=KEY_CNV_COL)
@@ -295,7 +297,7 @@ def run(ctx):
         if asan_ok:
             ab = os.path.join(common.HARNESS, "target-asan", "x86_64-unknown-linux-gnu", "release", "pvh")
             env2 = dict(common.ENV, ASAN_OPTIONS="detect_leaks=0:abort_on_error=0:alloc_dealloc_mismatch=0")
-            p = subprocess.run([ab, "layout"], input="\n".join(canary_lines) + "\n", capture_output=True, text=True, env=env2)
+            p = subprocess.run([ab, "layout"], input="\n".join(canary_lines + asan_extra) + "\n", capture_output=True, text=True, env=env2)
             rep = re.findall(r"ERROR: AddressSanitizer: (\S+)", p.stderr)
             ctx.cov["asan_reports"] = rep[:10]
             ctx.cov["asan_cases"] = len(p.stdout.split("\n")) - 1
